@@ -38,7 +38,7 @@ RULE = (
     "alpha in {0.5,1,2,8}, m in {6,10}; or uniform) so that the matrix sums to 1 exactly, a 0/1 predicate "
     "drawn bit by bit / from a seed / from two frustrated families (AND, inner product) behind local flips, predicate "
     "dtype int/bool/float, tol omitted or one of 1e-12/1e-8/1e-4, constructor argument form positional or keyword, "
-    "reps 1..3. A game is non-trivial when it is rectangular or its distribution is not uniform on its support AND an "
+    "reps 1..3 (sub-check pred_dtype stores the same predicate as (u)int8/16/32/64, bool or float32/64). A game is non-trivial when it is rectangular or its distribution is not uniform on its support AND an "
     "achieved quantum value (alternating maximisation, numpy) exceeds the brute-force classical value by >= 0.01; "
     "conversion / validation cases are non-trivial when rectangular or reps >= 2 / when the defect is the only one "
     "present. Bell cases: 2x2 coefficient matrices from integers -3..3, a drawn PRNG seed, or an odd-parity "
@@ -58,6 +58,7 @@ ASSUMPTIONS = [
     "a cvxpy 'solution may be inaccurate' warning or a solver exception makes the case inconclusive, never a pass or a "
     "violation; a certificate interval wider than 1e-5 makes the case inconclusive",
     "reps >= 2 sandwich (classical(G^2) <= w*^2 <= NPA_1(G^2)) only for games with q0*q1 <= 6 and min(q0,q1) <= 2",
+    "a 0/1 predicate may be stored in any numeric numpy dtype, signed or unsigned (the docstring says 'a binary matrix')",
     "bell_inequality_max with three or more settings is outside the property text (two settings per party only)",
 ]
 
@@ -746,15 +747,58 @@ def nt_bell_corr(case):
     return None
 
 
+# ------------------------------------------------------------------------------------------
+# 9. the same 0/1 predicate in any numeric dtype
+# ------------------------------------------------------------------------------------------
+_DTYPES = ["uint8", "int8", "bool", "float32", "uint64", "int64", "float64", "uint16", "int32"]
+
+
+@st.composite
+def _dtype_case(draw):
+    case = draw(_xor_case(with_tol=False))
+    case["np_dtype"] = draw(st.sampled_from(_DTYPES))
+    return case
+
+
+def check_pred_dtype(case):
+    """'Any 0/1 predicate': the values must not depend on the numeric dtype in which the 0/1 matrix is stored."""
+    from toqito.nonlocal_games.xor_game import XORGame
+
+    prob, pred = _pm(case)
+    D = H.d_matrix(prob, pred)
+    lb, ub = _interval(D)
+    w_lo, w_hi = 0.5 + lb / 2, 0.5 + ub / 2
+    f = pred.astype(np.dtype(case["np_dtype"]))
+    g = XORGame(prob, f)
+    wc = 0.5 + H.classical_bias(D) / 2
+    cv = float(g.classical_value())
+    req(abs(cv - wc) <= TOL_EXACT, f"classical_value {cv!r} != brute force {wc!r} for a predicate stored as {case['np_dtype']}", "dtype:classical")
+    V = np.asarray(g.to_nonlocal_game().pred_mat)
+    req(np.array_equal(V, H.xor_pred(pred)), f"converted predicate wrong for a predicate stored as {case['np_dtype']}", "dtype:conversion")
+    qv = _sdp(g.quantum_value)
+    _finite(qv, "quantum_value")
+    req(
+        w_lo - TOL_EQ <= qv <= w_hi + TOL_EQ,
+        f"quantum_value {qv:.7f} outside the certified interval [{w_lo:.7f}, {w_hi:.7f}] for a predicate stored as {case['np_dtype']}",
+        "dtype:quantum",
+    )
+
+
+def nt_dtype(case):
+    lab = _shape_label(case)
+    return case["np_dtype"] + ("," + ",".join(lab) if lab else "")
+
+
 SUBCHECKS = [
     SubCheck("tsirelson_interval", check_tsirelson, _xor_case, nt_game, quick=1000, thorough=12000, case_timeout=30),
-    SubCheck("npa1", check_npa1, _npa_case, nt_game, quick=288, thorough=3600, case_timeout=30),
+    SubCheck("npa1", check_npa1, _npa_case, nt_game, quick=256, thorough=3200, case_timeout=30),
     SubCheck("classical", check_classical, _xor_case, nt_shape, quick=2000, thorough=30000),
-    SubCheck("nonsignaling", check_nonsignaling, _ns_case, nt_shape, quick=128, thorough=1600, case_timeout=30),
+    SubCheck("nonsignaling", check_nonsignaling, _ns_case, nt_shape, quick=96, thorough=1200, case_timeout=30),
     SubCheck("order", check_order, _xor_case, nt_game, quick=1000, thorough=12000, case_timeout=30),
-    SubCheck("reps", check_reps, _reps_case, nt_reps, quick=160, thorough=2000, case_timeout=60),
+    SubCheck("reps", check_reps, _reps_case, nt_reps, quick=128, thorough=1600, case_timeout=60),
     SubCheck("conversion", check_conversion, _conv_case, nt_conv, quick=1500, thorough=20000),
     SubCheck("validation", check_validation, _valid_case, nt_valid, quick=2000, thorough=30000),
-    SubCheck("bell_m2", check_bell, _bell_case, nt_bell, quick=208, thorough=2600, case_timeout=30),
+    SubCheck("bell_m2", check_bell, _bell_case, nt_bell, quick=176, thorough=2200, case_timeout=30),
+    SubCheck("pred_dtype", check_pred_dtype, _dtype_case, nt_dtype, quick=320, thorough=4000, case_timeout=30),
     SubCheck("bell_tsirelson", check_bell_tsirelson, _bell_corr_case, nt_bell_corr, quick=128, thorough=1600, case_timeout=30),
 ]
